@@ -47,6 +47,8 @@ type ShutCase struct {
 	// ClunkWaits: the file system's Clunk honours its context: the clunks issued by Stop return
 	// when that context is done (it is a cancelled context, so: at once)
 	ClunkWaits bool `json:",omitempty"`
+	// StopClunkFails: the Clunk calls that Stop issues report an error (the entry is released all the same)
+	StopClunkFails bool `json:",omitempty"`
 }
 
 var flightKinds = []string{"walk", "clone", "attach", "open", "opendir", "create", "read", "write", "stat", "wstat", "clunk", "remove", "walkinplace", "walkinplace", "stat", "read"}
@@ -86,6 +88,7 @@ func GenShut(t *rapid.T) ShutCase {
 		c.DupTag = rapid.IntRange(1, 3).Draw(t, "ndup")
 	}
 	c.ClunkWaits = rapid.IntRange(0, 2).Draw(t, "clunkwaits") == 0
+	c.StopClunkFails = rapid.IntRange(0, 2).Draw(t, "stopclunkfails") == 0
 	return c
 }
 
@@ -224,6 +227,9 @@ func RunShut(c ShutCase) harn.Result {
 					time.Sleep(100 * time.Microsecond)
 				}
 				time.Sleep(2 * time.Millisecond)
+			}
+			if c.StopClunkFails && call.Op == "clunk" {
+				return &mockfs.Fault{Err: mockfs.ErrInjected}
 			}
 			return nil
 		}
@@ -548,7 +554,7 @@ func RunShut(c ShutCase) harn.Result {
 		}
 	}
 	for _, v := range fs.Violations() {
-		if strings.Contains(v, "released twice") {
+		if strings.Contains(v, "released twice") || strings.Contains(v, "after its release") {
 			return fail("%s", v)
 		}
 	}
@@ -579,6 +585,9 @@ func RunShut(c ShutCase) harn.Result {
 	}
 	if c.ClunkWaits {
 		res.Classes = append(res.Classes, "clunk_honours_stop_context")
+	}
+	if c.StopClunkFails {
+		res.Classes = append(res.Classes, "stop_clunks_report_errors")
 	}
 	return res
 }
